@@ -121,6 +121,43 @@ void cv_seam_cells(CellVec *c, int res, int nPerEdge) {
     }
 }
 
+/* index words built from the documented layout: one non-zero digit d at position p, every other digit 0 (pentagon and
+ * hexagon base cells); and random cells followed by a run of centre digits */
+void cv_sparse_digit_cells(CellVec *c, int res, int quick) {
+    static const int bcs[] = {4, 14, 38, 58, 97, 117, 0, 20, 65, 121};
+    for (int b = 0; b < 10; b++) {
+        if (quick && b % 2 && b != 7) continue;
+        uint64_t base = ((uint64_t)1 << 59) | ((uint64_t)res << 52) | ((uint64_t)bcs[b] << 45);
+        for (int r = res + 1; r <= 15; r++) base |= (uint64_t)7 << (3 * (15 - r));
+        if (isValidCell(base)) cv_push(c, base);
+        for (int p = 1; p <= res; p++) for (int d = 1; d <= 6; d++) {
+            if (quick && (p + d + b) % 3) continue;
+            uint64_t h = base | ((uint64_t)d << (3 * (15 - p)));
+            if (isValidCell(h)) cv_push(c, h);
+        }
+    }
+    for (int k = 0; k < (quick ? 4 : 20) && res > 0; k++) {
+        int pr = (int)vt_randn(res); H3Index a = vt_random_cell(pr), ch;
+        if (!cellToCenterChild(a, res, &ch)) cv_push(c, ch);
+    }
+}
+void cv_polar_cells(CellVec *c, int res) {
+    for (int s = -1; s <= 1; s += 2) {
+        LatLng pl = {s * M_PI_2, 0}; H3Index h;
+        if (latLngToCell(&pl, res, &h)) continue;
+        H3Index d[7] = {0}; gridDisk(h, 1, d);
+        for (int i = 0; i < 7; i++) if (d[i]) cv_push(c, d[i]);
+    }
+}
+void cv_antimeridian_cells(CellVec *c, int res, int n) {
+    for (int k = 0; k < n; k++) {
+        LatLng am = {(k + vt_rand01()) / n * 2.8 - 1.4, (k % 2) ? M_PI : -M_PI}; H3Index h;
+        if (latLngToCell(&am, res, &h)) continue;
+        H3Index d[7] = {0}; gridDisk(h, 1, d);
+        for (int i = 0; i < 7; i++) if (d[i]) cv_push(c, d[i]);
+    }
+}
+
 uint64_t vt_mutate_word(uint64_t h) {
     switch (vt_randn(9)) {
         case 0: return h ^ ((uint64_t)1 << vt_randn(64));
